@@ -296,12 +296,15 @@ pub fn generate(seed: u64, tier: &str, out: &mut dyn std::io::Write) {
         writeln!(out, "{}", case_zombie(&format!("z{}-{}", seed, i), &mut Rng::for_case(seed, 3002, i))).unwrap();
     }
     for i in 0..nsov {
+        crate::rng::progress(&format!("v{}-{}", seed, i));
         writeln!(out, "{}", case_sover(&format!("v{}-{}", seed, i), &mut Rng::for_case(seed, 2, i))).unwrap();
     }
     for i in 0..ndso {
+        crate::rng::progress(&format!("d{}-{}", seed, i));
         writeln!(out, "{}", case_dso(&format!("d{}-{}", seed, i), &mut Rng::for_case(seed, 1002, i))).unwrap();
     }
     for i in 0..nfiles {
+        crate::rng::progress(&format!("m{}-{}", seed, i));
         writeln!(out, "{}", case_files(&format!("m{}-{}", seed, i), &mut Rng::for_case(seed, 2002, i))).unwrap();
     }
 }
